@@ -372,7 +372,9 @@ def WM.removeComp (w : WM) (t : Nat) (e : Handle) (c : CompId) : WM × List Cb :
       | some (w, cbs) => (w, cbs)
 
 def WM.destroy (w : WM) (t : Nat) (e : Handle) : WM :=
-  if w.isLocked then w.pushCmd t (.destroy e) else { w with marked := insertSorted w.marked e }
+  if w.isLocked then w.pushCmd t (.destroy e)
+  else if w.isValid e then { w with marked := insertSorted w.marked e }
+  else w          -- a handle that is not alive is not queued
 
 def WM.destroyNow (w : WM) (t : Nat) (e : Handle) : WM × List Cb :=
   if w.isLocked then (w.pushCmd t (.destroyNow e), []) else w.destroyNowU info e
